@@ -71,6 +71,11 @@ def gen(ctx):
             yield dict(kind="ev1", hist=hist, dtype="int32", scale=1, r=1, rule=rng.choice(["nks:30", "nks:110", "hash:3:2:1:0"]),
                        memo=rng.choice(["False", "True", "recursive_lit"]), pred="steps:%d" % K, fuel=K + 5)
             yield dict(kind="ev1", hist=hist, dtype="int32", scale=1, r=1, rule="nks:30", memo="False", pred="lenle:%d" % K, fuel=K + 5)
+    # the rule's arguments are the same kind of values on the callable-timesteps path as on the fixed path
+    for N in ([70] if ctx.tier == "quick" else [64, 70, 96]):
+        for memo in ("False", "True", "recursive_lit"):
+            yield dict(kind="ev1", hist=[[rng.randrange(3) for _ in range(N)]], dtype="int32", scale=1, r=1, rule="shiftc:3:0",
+                       memo=memo, pred="steps:%d" % rng.randint(1, 3), fuel=8)
     # a resting state that a time-dependent (or stateful) rule later perturbs, under a predicate that keeps going:
     # every granted step must consult the rule, whether or not the state has stopped changing
     for _ in range(ctx.n(40, 400)):
@@ -122,7 +127,7 @@ def line(c):
 def run_capped(c):
     import cellpylib as cpl
     ca = ev1.make_ca(c)
-    rule = Rule(c["rule"], c.get("scale", 1), clobber=bool(c.get("clobber")))
+    rule = Rule(c["rule"], c.get("scale", 1), clobber=bool(c.get("clobber")), mixret=bool(c.get("mixret")))
     pred = CappedPred(c["pred"], c.get("scale", 1))
     pred.fuel = c.get("fuel", FUEL)
     try:
@@ -200,6 +205,9 @@ def oracle(c):
     rows = ev1.scaled_rows(res, c)
     if rows[:H] != c["hist"]:
         return "given history not returned as a prefix"
+    if isinstance(res, np.ndarray) and np.shares_memory(res, ca):
+        # also when the predicate declines at once: the result is a new array, never the caller's own
+        return "the returned evolution shares memory with the array that was passed in (%d steps taken)" % (len(rows) - H)
     k = len(rows) - H            # steps performed
     # the predicate was consulted with (rows of this call so far, t = their number), t = 1..k+1
     this_call = [c["hist"][-1]] + rows[H:]
